@@ -196,7 +196,7 @@ def main():
                                   ntraces=(10 if impl == 'c' else 5) if quick else 100, length=60 if quick else 120,
                                   seed=ck.seed * 1000 + 800 + len(hplan), jar=True, pure=(impl == 'py')))
     tracecheck.run_leaf_histories(ck, hplan)
-    if not ck.notes.get('leafstore_commits') or not ck.notes.get('leafstore_aborts'):
+    if (not ck.notes.get('leafstore_commits') or not ck.notes.get('leafstore_aborts')) and not ck.violations:
         common.machinery_failure('no commit / abort in the transactional histories')
     ck.assumptions += ['the data manager is a stand-in (harness/minijar.py) that writes in ZODB\'s order: registered objects '
                        'first-come, newly reached objects last-in first-out',
